@@ -133,7 +133,10 @@ def check_rel_interval(spec, ctx):
         off += e - s
         bounds.add(off)
     for a, b in pairs:
-        for rs in spec.get("rel_strands", ["+", "-"]):
+        # the same window is asked on ONE object with the strands in both orders (+,-,+ or -,+,-), so that an answer that
+        # depended on the previous request for that window would show
+        order = spec.get("rel_strands") or (["+", "-", "+"] if (a + b) % 2 == 0 else ["-", "+", "-"])
+        for rs in order:
             try:
                 res = loc.relative_interval_to_parent_location(a, b, STRAND[rs])
             except REJECT as e:
